@@ -1,0 +1,62 @@
+//! Verification hooks, compiled only with `--cfg nexosim_verif`.
+//!
+//! Seeded delays at the protocol points of the multi-threaded executor (worker
+//! deactivation, idle hand-off to the main thread, task search and worker
+//! activation). The hooks do nothing unless armed with [`set_delays`]; when
+//! armed they only yield or sleep, so every behaviour they provoke is a
+//! behaviour that preemption by the operating system could provoke as well.
+use std::cell::Cell;
+use std::sync::atomic::{AtomicU32, AtomicU64, Ordering};
+use std::time::Duration;
+
+static SEED: AtomicU64 = AtomicU64::new(0);
+static GENERATION: AtomicU64 = AtomicU64::new(0);
+static PERMILLE: AtomicU32 = AtomicU32::new(0);
+static MAX_US: AtomicU32 = AtomicU32::new(0);
+static MASK: AtomicU64 = AtomicU64::new(0);
+static THREAD_SALT: AtomicU64 = AtomicU64::new(1);
+
+thread_local! { static RNG: Cell<(u64, u64)> = const { Cell::new((0, 0)) }; }
+
+/// Arms the delay points: at each point whose bit is set in `mask`, with a
+/// probability of `permille`/1000, the calling thread yields or sleeps for up
+/// to `max_us` microseconds. `permille == 0` disarms all points.
+pub fn set_delays(seed: u64, permille: u32, max_us: u32, mask: u64) {
+    SEED.store(seed, Ordering::Relaxed);
+    MAX_US.store(max_us, Ordering::Relaxed);
+    MASK.store(mask, Ordering::Relaxed);
+    GENERATION.fetch_add(1, Ordering::Relaxed);
+    PERMILLE.store(permille, Ordering::Relaxed);
+}
+
+/// A delay point.
+pub(crate) fn point(id: u32) {
+    let permille = PERMILLE.load(Ordering::Relaxed);
+    if permille == 0 || (MASK.load(Ordering::Relaxed) >> id) & 1 == 0 {
+        return;
+    }
+    RNG.with(|rng| {
+        let (mut generation, mut x) = rng.get();
+        let current = GENERATION.load(Ordering::Relaxed);
+        if generation != current || x == 0 {
+            generation = current;
+            x = SEED
+                .load(Ordering::Relaxed)
+                .wrapping_add(THREAD_SALT.fetch_add(1, Ordering::Relaxed))
+                .wrapping_mul(0x9E37_79B9_7F4A_7C15)
+                | 1;
+        }
+        x ^= x << 13;
+        x ^= x >> 7;
+        x ^= x << 17;
+        rng.set((generation, x));
+        if (x % 1000) < permille as u64 {
+            let us = (x >> 24) % (MAX_US.load(Ordering::Relaxed) as u64 + 1);
+            if us == 0 {
+                std::thread::yield_now();
+            } else {
+                std::thread::sleep(Duration::from_micros(us));
+            }
+        }
+    });
+}
